@@ -192,6 +192,14 @@ def builders():
         x = SpatialCoordinate(m)
         return derivative(f * dx(m), x, d1) + derivative(g * g * dx(m), x, d2) + f * g * dx(m)
 
+    @add("arguments and coefficients on a mesh sequence (mixed-domain function space)")
+    def _():
+        m0, m1 = new_mesh(), new_mesh()
+        W = FunctionSpace(ufl.MeshSequence([m0, m1]), E.MixedElement([L(ufl.triangle, 1), L(ufl.triangle, 2)], make_cell_sequence=True))
+        (u0, u1), (v0, v1) = ufl.TrialFunctions(W), ufl.TestFunctions(W)
+        w0, w1 = ufl.split(Coefficient(W))
+        return w0 * u0 * v0 * ufl.Measure("dx", domain=m0) + w1 * u1 * v1 * ufl.Measure("dx", domain=m1)
+
     @add("tetrahedron, quadratic geometry")
     def _():
         m = new_mesh(ufl.tetrahedron, 2)
@@ -307,6 +315,8 @@ def variants():
     pair("metadata key", base, {"metadata": {"quadrature_degree": 2}}, {"metadata": {"quadrature_rule": 2}})
     pair("metadata nested value", base, {"metadata": {"opts": {"a": [1, 2]}}}, {"metadata": {"opts": {"a": [1, 3]}}})
     pair("metadata list order", base, {"metadata": {"pts": [1, 2]}}, {"metadata": {"pts": [2, 1]}})
+    pair("metadata values exchanged between two keys (insertion order not sorted)", base, {"metadata": {"quadrature_degree": 4, "precision": 8}},
+         {"metadata": {"precision": 4, "quadrature_degree": 8}})
     big_a = np.linspace(0.0, 1.0, 1200)
     big_b = big_a.copy()
     big_b[600] += 0.25
